@@ -154,25 +154,31 @@ def eval_expr(e: ast.expr, env: dict[str, Any], oracle: Oracle | None = None) ->
         recv = eval_expr(e.func.value, env, oracle)
         if isinstance(recv, (str, bytes)):
             return getattr(recv, e.func.attr)()
-    if isinstance(e, (ast.ListComp, ast.SetComp, ast.GeneratorExp, ast.DictComp)) and len(e.generators) == 1 and not e.generators[0].is_async:
-        gen = e.generators[0]
-        src = eval_expr(gen.iter, env, oracle)
-        if isinstance(src, dict):
-            src = list(src)
-        if not isinstance(src, (list, tuple, set, frozenset, str, bytes, range)) and not hasattr(src, "__iter__"):
-            raise TypeRaised("TypeError")
+    if isinstance(e, (ast.ListComp, ast.SetComp, ast.GeneratorExp, ast.DictComp)) and not any(g.is_async for g in e.generators):
         out: list[Any] = []
-        for item in src:
-            e2 = dict(env)
-            if isinstance(gen.target, ast.Name):
-                e2[gen.target.id] = item
-            elif isinstance(gen.target, ast.Tuple) and all(isinstance(t, ast.Name) for t in gen.target.elts) and isinstance(item, tuple) and len(item) == len(gen.target.elts):
-                for t, v_ in zip(gen.target.elts, item):
-                    e2[t.id] = v_
-            else:
-                raise AnalysisError(f"comprehension target outside the language: {ast.unparse(e)}")
-            if all(eval_expr(c, e2, oracle) for c in gen.ifs):
+
+        def gen(i: int, e2: dict[str, Any]) -> None:
+            if i == len(e.generators):
                 out.append((eval_expr(e.key, e2, oracle), eval_expr(e.value, e2, oracle)) if isinstance(e, ast.DictComp) else eval_expr(e.elt, e2, oracle))
+                return
+            g = e.generators[i]
+            src = eval_expr(g.iter, e2, oracle)
+            if isinstance(src, dict):
+                src = list(src)
+            if not isinstance(src, (list, tuple, set, frozenset, str, bytes, range)) and not hasattr(src, "__iter__"):
+                raise TypeRaised("TypeError")
+            for item in src:
+                e3 = dict(e2)
+                if isinstance(g.target, ast.Name):
+                    e3[g.target.id] = item
+                elif isinstance(g.target, ast.Tuple) and all(isinstance(t, ast.Name) for t in g.target.elts) and isinstance(item, tuple) and len(item) == len(g.target.elts):
+                    for t, v_ in zip(g.target.elts, item):
+                        e3[t.id] = v_
+                else:
+                    raise AnalysisError(f"comprehension target outside the language: {ast.unparse(e)}")
+                if all(eval_expr(c, e3, oracle) for c in g.ifs):
+                    gen(i + 1, e3)
+        gen(0, dict(env))
         if isinstance(e, ast.DictComp):
             return dict(out)
         return set(out) if isinstance(e, ast.SetComp) else out
@@ -280,6 +286,34 @@ def _builtin_types(node: ast.expr):
     return None
 
 
+def _match_pattern(pat: ast.pattern, subj: Any, env: dict[str, Any], oracle: Oracle | None) -> bool | None:
+    if isinstance(pat, ast.MatchAs) and pat.pattern is None:
+        if pat.name is not None:
+            env[pat.name] = subj
+        return True
+    if isinstance(pat, ast.MatchAs) and pat.pattern is not None:
+        ok_ = _match_pattern(pat.pattern, subj, env, oracle)
+        if ok_ and pat.name:
+            env[pat.name] = subj
+        return ok_
+    if isinstance(pat, ast.MatchOr):
+        res = [_match_pattern(p_, subj, env, oracle) for p_ in pat.patterns]
+        return None if any(x is None for x in res) else any(res)
+    if isinstance(pat, ast.MatchValue):
+        return subj == eval_expr(pat.value, env, oracle)
+    if isinstance(pat, ast.MatchSingleton):
+        return subj is pat.value
+    if isinstance(pat, ast.MatchClass) and not pat.patterns and not pat.kwd_patterns:
+        types = _builtin_types(pat.cls)
+        if types is not None:
+            return isinstance(subj, types)
+        if oracle is not None:
+            v = oracle(ast.Call(func=ast.Name(id="isinstance", ctx=ast.Load()), args=[ast.Constant(value=subj), pat.cls], keywords=[]), env)
+            if v is not NotImplemented:
+                return bool(v)
+    return None
+
+
 def exec_body(stmts: list[ast.stmt], env: dict[str, Any], oracle: Oracle | None = None) -> None:
     for st in stmts:
         if isinstance(st, ast.Expr) and isinstance(st.value, ast.Constant):
@@ -331,6 +365,19 @@ def exec_body(stmts: list[ast.stmt], env: dict[str, Any], oracle: Oracle | None 
             continue
         if isinstance(st, ast.Expr):
             eval_expr(st.value, env, oracle)
+            continue
+        if isinstance(st, ast.Match):
+            subj = eval_expr(st.subject, env, oracle)
+            taken = False
+            for case in st.cases:
+                ok_ = _match_pattern(case.pattern, subj, env, oracle)
+                if ok_ is None:
+                    raise AnalysisError(f"match pattern outside the finite-domain language: {ast.unparse(case.pattern)}")
+                if ok_ and (case.guard is None or eval_expr(case.guard, env, oracle)):
+                    exec_body(case.body, env, oracle)
+                    taken = True
+                    break
+            del taken
             continue
         raise AnalysisError(f"statement outside the finite-domain language: {ast.unparse(st)[:80]}")
 
